@@ -128,6 +128,15 @@ def check_case(case: Dict[str, Any], col: Collector) -> None:
         col.count(_strip(case), labs, False)
         return
     required = sorted(insp.required_context_keys)
+    # the payload consumed by CLI / GUI must list the same keys, sorted
+    try:
+        from semantiva.inspection import build_inspection_payload
+
+        pl = build_inspection_payload(M.to_config(case))
+        if pl.get("required_context_keys") != required:
+            col.add("payload_required_keys_differ_from_inspection", {}, _strip(case), pl.get("required_context_keys"), required)
+    except Exception as exc:  # noqa: BLE001
+        col.add("inspection_payload_raises", {"exc": type(exc).__name__}, _strip(case), repr(exc)[:160])
     bank = case["bank"]
     ctx_exact = {k: copy.deepcopy((case.get("ctx") or {}).get(k, bank.get(k, 1.0))) for k in required}
     ctx_super = dict(copy.deepcopy(case.get("ctx") or {}), **copy.deepcopy(ctx_exact))
